@@ -16,18 +16,9 @@ from happysimulator.core.simulation import Simulation
 from happysimulator.core.temporal import Instant
 
 from . import c16_policies as pol9
+from .c16_util import Hung, exact_delay, time_limit  # noqa: F401
 
 NS = 1_000_000_000
-
-
-def exact_delay(ticks: int, tick_ns: int) -> float:
-    """A float number of seconds that the engine's int(d * 1e9) turns into exactly ticks*tick_ns."""
-    want = ticks * tick_ns
-    d = want / NS
-    if int(d * NS) != want:
-        d = (want + 0.5) / NS
-        assert int(d * NS) == want
-    return d
 
 
 class _Client(Entity):
@@ -57,7 +48,8 @@ class _Finale(Entity):
 
     def body(self):
         w = self.w
-        w.quiescent_at_finale = all(c.finished for c in w.clients) and not w.inflight
+        w.quiescent_at_finale = (all(c.finished for c in w.clients) and not w.inflight
+                                 and (w.warmer is None or w.warmer.is_complete))
         yield from w.do_op(0, "flush", 0, fin=True)
         for k in range(1, w.K + 1):
             yield from w.do_op(0, "get", k)
@@ -82,6 +74,19 @@ class CacheWorld:
                                write_through=self.wt)
         self.clients = [_Client(p, self, sc) for p, sc in enumerate(prog, start=1)]
         self.finale = _Finale(self)
+        # optional CacheWarmer (cache_warming.py) pre-populating the cache while clients run: every get() of
+        # the cache, whoever calls it, is driven segment by segment through the recorder
+        self.warmer = None
+        self._orig_get = self.cache.get
+        if cfg.get("warm"):
+            from happysimulator.components.datastore.cache_warming import CacheWarmer
+            world = self
+
+            def traced_get(name):
+                return world.drive_get(-2, pol9.key_num(name), name)
+            self.cache.get = traced_get
+            self.warmer = CacheWarmer("warmer", self.cache, [pol9.key_name(k) for k in cfg["warm"]["keys"]],
+                                      warmup_rate=1.0 / exact_delay(cfg["warm"]["every"], self.tick_ns))
         self.steps = []
         self.nv = 0
         self.noid = 0
@@ -89,6 +94,7 @@ class CacheWorld:
         self.errors = []
         self.skipped = 0
         self.quiescent_at_finale = None
+        self.hung = False
 
     # ------------------------------------------------------------------
     def tick(self):
@@ -138,7 +144,7 @@ class CacheWorld:
             self.record(p, oid, kind, 0, 0, 1, True, 0, ford, fin)
             return None
         if kind == "get":
-            gen = c.get(name)
+            gen = self._orig_get(name)
         elif kind == "put":
             self.nv += 1
             v = self.nv
@@ -167,9 +173,31 @@ class CacheWorld:
                     return ret
                 self.record(p, oid, kind, k, v, seg, False, 0, ford if seg == 1 else [], fin)
                 send = yield y
+        except Hung:
+            raise
         except Exception as ex:      # noqa: BLE001 - the real code raised: recorded, not a verdict
             self.errors.append(f"{kind}({k}) seg {seg}: {type(ex).__name__}: {ex}")
             return None
+        finally:
+            self.inflight.discard(oid)
+
+    def drive_get(self, p, k, name):
+        """cache.get() called by somebody else (the CacheWarmer): same recording as do_op('get')."""
+        self.noid += 1
+        oid = self.noid
+        gen = self._orig_get(name)
+        self.inflight.add(oid)
+        seg, send = 0, None
+        try:
+            while True:
+                seg += 1
+                try:
+                    y = next(gen) if seg == 1 else gen.send(send)
+                except StopIteration as e:
+                    self.record(p, oid, "get", k, 0, seg, True, e.value, [], False)
+                    return e.value
+                self.record(p, oid, "get", k, 0, seg, False, 0, [], False)
+                send = yield y
         finally:
             self.inflight.discard(oid)
 
@@ -178,12 +206,22 @@ class CacheWorld:
         lat = self.cfg["lat"]
         worst = max(lat.values()) * (self.K + 2) + 2
         horizon = max([sum(g for _, _, g in sc) + len(sc) * worst for sc in self.prog] + [0]) + 10
-        sim = Simulation(entities=[self.backing, self.cache, *self.clients, self.finale])
+        ents = [self.backing, self.cache, *self.clients, self.finale]
+        if self.warmer is not None:
+            ents.append(self.warmer)
+            horizon += len(self.cfg["warm"]["keys"]) * (self.cfg["warm"]["every"] + worst) + 2
+        sim = Simulation(entities=ents)
+        if self.warmer is not None:
+            sim.schedule(self.warmer.start_warming())
         for cl in self.clients:
             sim.schedule(Event(time=Instant(0), event_type="go", target=cl))
         sim.schedule(Event(time=Instant(horizon * self.tick_ns), event_type="go", target=self.finale))
         try:
-            sim.run()
+            with time_limit(self.cfg.get("limit_s", 5)):
+                sim.run()
+        except Hung as ex:
+            self.hung = True
+            self.errors.append(f"simulation did not terminate: {ex}")
         except Exception as ex:      # noqa: BLE001
             self.errors.append(f"simulation: {type(ex).__name__}: {ex}")
         return self
